@@ -98,20 +98,20 @@ Inductive cls_rt : eclass -> rowtype -> Prop :=
 
 Definition ref_add (cls : eclass) (d : rdec) (c : econd) (tgt : dest) : rdec :=
   match cls with
-  | ESplit => add_case nab d (rd_operand d) (c_type c) (c_value c) [Some (c_value c)] (c_cname c) tgt
+  | ESplit => add_case nab d (rd_operand d) (c_type c) (c_value c) (ref_args c) (c_cname c) tgt
   | EGroup => add_case nab d (rd_operand d) has_group_s (c_value c) [None; Some (c_value c)] (c_cname c) tgt
-  | _ => add_case nab d (match c_variable c with [] => s_input_text | v => v end) (c_type c) (c_value c) [Some (c_value c)] (c_cname c) tgt
+  | _ => add_case nab d (match c_variable c with [] => s_input_text | v => v end) (c_type c) (c_value c) (ref_args c) (c_cname c) tgt
   end.
 
 Lemma plain_edge_dec phi uu n U cls rt d r c tgt dd r' n' :
-  dec_sim phi uu d r -> plain_dec d -> SwOK fresh n U r -> c_cname c = [] -> dest_sim phi uu tgt dd -> cls_rt cls rt ->
+  dec_sim phi uu d r -> plain_dec d -> SwOK fresh n U r -> cond_ok c -> dest_sim phi uu tgt dd -> cls_rt cls rt ->
   sw_add_choice fresh n r (match rt with RTOther => or_default (c_variable c) s_input_text | _ => sw_operand r end)
                 (match rt with RTSplitGroup => has_group_s | _ => or_default (c_type c) s_has_any_word end)
-                (match rt with RTSplitGroup => [None; Some (c_value c)] | _ => [Some (c_value c)] end)
+                (match rt with RTSplitGroup => [None; Some (c_value c)] | _ => row_args c end)
                 (c_cname c) dd false = Ok (r', n') ->
   dec_sim phi uu (ref_add cls d c tgt) r' /\ plain_dec (ref_add cls d c tgt).
 Proof.
-  intros Hs Hp Hok Hn Hd Hcr. rewrite Hn.
+  intros Hs Hp Hok (Hn & Hra & _) Hd Hcr. rewrite Hn, Hra.
   assert (Ev : (match c_variable c with [] => s_input_text | v => v end) = or_default (c_variable c) s_input_text)
     by (destruct (c_variable c); reflexivity).
   destruct Hcr; cbn [ref_add]; rewrite ?Hn, ?Ev; intros H.
@@ -191,13 +191,14 @@ Lemma row_edge_sim phi sr sc g k cls n tgt d c n' k1 ks rt sc' :
   Sim phi sr sc -> StOK fresh GP sc ->
   nth_error (s_groups sr) g = Some (GRow k cls) -> nth_error (cs_groups sc) g = Some (CGRow k1 ks rt) ->
   nth_error (s_nodes sr) k = Some n ->
-  c_cname c = [] -> dest_sim phi (cuu sc) tgt d ->
+  cond_ok c -> dest_sim phi (cuu sc) tgt d ->
   apply_row_edge nab n cls c tgt = Some n' ->
   row_add_exit fresh sc g k1 ks rt d c = Ok sc' ->
   exists phi', Sim phi' (RowSem.set_node sr k n') sc' /\ phi_le phi phi'
                /\ (forall k0 c1, k0 <> k -> nth_error phi k0 = Some c1 -> nth_error phi' k0 = Some c1).
 Proof.
-  intros Hsim Hst Hg Hgc Hk Hcn Hd Href Hcomp.
+  intros Hsim Hst Hg Hgc Hk Hcok Hd Href Hcomp. destruct Hcok as (Hcn & Hra & Hna).
+  assert (Hcok : cond_ok c) by (split; [exact Hcn|split; [exact Hra|exact Hna]]).
   destruct (exit_view_of phi sr sc g k cls n k1 ks rt Hsim Hg Hgc Hk) as (c0 & Hc0 & -> & -> & Hv).
   unfold row_add_exit in Hcomp. rewrite row_exit_router in Hcomp.
   destruct Hv as [nd e Ho Hnd Hb Hdec Hact Hcont -> ->|ndx clsr r d0 Hndx Hb Hdec Hds Hsh Hcl].
@@ -242,14 +243,14 @@ Proof.
       { apply SwOK_update_default.
         - eapply dest_ok_mono; [|eapply StOK_basic; eauto]. apply incl_appl, incl_refl.
         - eapply SwOK_mono; [| |exact Hok0]; [lia|apply incl_refl]. }
-      destruct (dec_sim_add_case fresh fresh_inj phi' uu' (S n1) _ _ _ variable (c_type c) (c_value c) [Some (c_value c)] tgt d r2 n3
+      destruct (dec_sim_add_case fresh fresh_inj phi' uu' (S n1) _ _ _ variable (c_type c) (c_value c) (ref_args c) tgt d r2 n3
                   Hds1 ltac:(constructor) Hok1 Hd') as [Hds2 Hpl2].
-      { rewrite Hcn in Ea. exact Ea. }
+      { rewrite Hcn, Hra in Ea. exact Ea. }
       exists phi'. split; [|split; [exact Hple|intros k0 c1 Hne0 H0; unfold phi'; rewrite update_nth_other by exact Hne0; exact H0]].
       (* the reference node *)
       assert (En' : n' = mkRNode (rn_actions n)
                      (Some (add_case nab (set_default (fresh_dec variable (match timeout with None => WNone | Some _ => WMsg end) DNone) (rn_cont n))
-                                     variable (c_type c) (c_value c) [Some (c_value c)] [] tgt)) DNone).
+                                     variable (c_type c) (c_value c) (ref_args c) [] tgt)) DNone).
       { unfold variable, timeout, or_default in *. rewrite Hcn in Href. destruct (c_variable c); injection Href as <-; reflexivity. }
       rewrite En'. rewrite Ho. cbn [app].
       eapply (Sim_implicit phi sr sc g k EAction n _ (fst c0) nd); eauto.
@@ -287,7 +288,7 @@ Proof.
                 (exists phi; split; [rewrite set_node_same by exact Hk; exact Hsim|split; [apply phi_le_refl|auto]]).
         -- subst n'.
            destruct (sw_add_choice fresh (cs_next sc) r _ _ _ _ _ _) as [[r' n1]|x] eqn:Ea; [|discriminate]. injection Hcomp as <-.
-           destruct (plain_edge_dec phi (cuu sc) _ _ cls rt d0 r c tgt d r' n1 Hds Hsh Hok Hcn Hd Hcr Ea) as [Hds' Hpl'].
+           destruct (plain_edge_dec phi (cuu sc) _ _ cls rt d0 r c tgt d r' n1 Hds Hsh Hok Hcok Hd Hcr Ea) as [Hds' Hpl'].
            exists phi. split; [|split; [apply phi_le_refl|auto]].
            eapply Sim_dec_update; eauto.
       * (* start_new_flow *)
